@@ -88,6 +88,11 @@ def make_cases(tier, seed, groups):
                 cases.append({"group": "cut", "fen": fen, "moves": ms, "specs": ["d%dc%d" % (d, k)], "depth": d})
             for k in (ks[1::3] if tier == "quick" else ks[1::4]):
                 cases.append({"group": "cut", "fen": fen, "moves": ms, "specs": ["d%dm%d" % (d, k)], "depth": d})
+            # game clocks that differ wildly between the two sides (engine only, judged by the prefix property): whatever the time
+            # management does with them, what it caches must be an initial segment of the uninterrupted run (seeded change r7C13: a hard
+            # limit computed from the clock of the side to move AT THE NODE, so a child sees "time is up" and its parent does not)
+            for clk in ("8:30000:2000:2000", "30000:8:2000:2000", "1:60000:20000:0", "60000:1:0:20000", "19:100000:0:0", "100000:19:0:0"):
+                cases.append({"group": "cutx", "fen": fen, "moves": ms, "specs": ["d%dt%s" % (d, clk)], "depth": d, "nomodel": True})
             # no time limit given and the clock jumps by four months at the K-th leaf: nothing may change (C16_clock_free)
             for k in (ks[0::4] if tier == "quick" else ks[2::4]):
                 cases.append({"group": "cut", "fen": fen, "moves": ms, "specs": ["d%dk%d" % (d, k)], "depth": d})
